@@ -10,6 +10,7 @@ import (
 	"fmt"
 	"math"
 	"reflect"
+	"runtime"
 	"sync/atomic"
 	"testing"
 	"testing/synctest"
@@ -19,6 +20,7 @@ import (
 
 	"verif/harness/internal/stores"
 	"verif/harness/internal/vk"
+	"verif/harness/internal/watchdog"
 )
 
 // one Go type whose encodability depends on the value (interface-typed field), plus statically
@@ -44,9 +46,29 @@ type cyc struct {
 	Next *cyc
 }
 
+// invalidJSON has a MarshalJSON that emits bytes that are not JSON for some values
+type invalidJSON struct {
+	ID int
+	F  float64
+}
+
+func (v invalidJSON) MarshalJSON() ([]byte, error) {
+	return []byte(fmt.Sprintf(`{"ID":%d,"F":%g}`, v.ID, v.F)), nil // NaN / Inf print as bare words
+}
+
+// ptrMarshal has MarshalJSON on the pointer receiver; a nil *ptrMarshal encodes as null
+type ptrMarshal struct{ ID int }
+
+func (p *ptrMarshal) MarshalJSON() ([]byte, error) {
+	return []byte(fmt.Sprintf(`{"ID":%d}`, p.ID)), nil
+}
+
+type alert struct{ ID int }
+
 // kinds of publish: 0 ok (append succeeds), 1 ok event but the store rejects the append,
-// 2.. unencodable values
-const nKinds = 8
+// 2..8 unencodable values, 9 a nil pointer event that encodes as null (ok), 10 the store writes the
+// record but reports an error (lost acknowledgement)
+const nKinds = 11
 
 func mkEvent(kind, id int) any {
 	switch kind {
@@ -62,10 +84,16 @@ func mkEvent(kind, id int) any {
 		return withFunc{ID: id, F: func() {}}
 	case 6:
 		return badMarshal{ID: id}
-	default:
+	case 7:
 		c := &cyc{ID: id}
 		c.Next = c
 		return c
+	case 8:
+		return invalidJSON{ID: id, F: math.Inf(1)}
+	case 9:
+		return (*ptrMarshal)(nil)
+	default:
+		return flex{ID: id, Payload: "lost-ack"}
 	}
 }
 
@@ -80,6 +108,12 @@ func idOf(ev any) int {
 	case badMarshal:
 		return e.ID
 	case *cyc:
+		return e.ID
+	case invalidJSON:
+		return e.ID
+	case *ptrMarshal:
+		return -9
+	case alert:
 		return e.ID
 	}
 	return -1
@@ -115,6 +149,10 @@ func publish(bus *ebu.EventBus, ev any) {
 		ebu.Publish(bus, e)
 	case *cyc:
 		ebu.Publish(bus, e)
+	case invalidJSON:
+		ebu.Publish(bus, e)
+	case *ptrMarshal:
+		ebu.Publish(bus, e)
 	}
 }
 
@@ -125,6 +163,8 @@ func subscribeAll(w *world, nHandlers int) {
 		ebu.Subscribe(w.bus, func(withFunc) { w.handled[0].Add(1) })
 		ebu.Subscribe(w.bus, func(badMarshal) { w.handled[0].Add(1) })
 		ebu.Subscribe(w.bus, func(*cyc) { w.handled[0].Add(1) })
+		ebu.Subscribe(w.bus, func(invalidJSON) { w.handled[0].Add(1) })
+		ebu.Subscribe(w.bus, func(*ptrMarshal) { w.handled[0].Add(1) })
 	}
 	if nHandlers >= 2 {
 		ebu.Subscribe(w.bus, func(flex) { w.handled[1].Add(1) }, ebu.Async())
@@ -132,6 +172,8 @@ func subscribeAll(w *world, nHandlers int) {
 		ebu.Subscribe(w.bus, func(withFunc) { w.handled[1].Add(1) }, ebu.Async())
 		ebu.Subscribe(w.bus, func(badMarshal) { w.handled[1].Add(1) }, ebu.Async())
 		ebu.Subscribe(w.bus, func(*cyc) { w.handled[1].Add(1) }, ebu.Async())
+		ebu.Subscribe(w.bus, func(invalidJSON) { w.handled[1].Add(1) }, ebu.Async())
+		ebu.Subscribe(w.bus, func(*ptrMarshal) { w.handled[1].Add(1) }, ebu.Async())
 	}
 	if nHandlers >= 3 {
 		ebu.SubscribeContext(w.bus, func(context.Context, flex) { w.handled[2].Add(1) }, ebu.Sequential())
@@ -139,6 +181,8 @@ func subscribeAll(w *world, nHandlers int) {
 		ebu.SubscribeContext(w.bus, func(context.Context, withFunc) { w.handled[2].Add(1) })
 		ebu.SubscribeContext(w.bus, func(context.Context, badMarshal) { w.handled[2].Add(1) })
 		ebu.SubscribeContext(w.bus, func(context.Context, *cyc) { w.handled[2].Add(1) })
+		ebu.SubscribeContext(w.bus, func(context.Context, invalidJSON) { w.handled[2].Add(1) })
+		ebu.SubscribeContext(w.bus, func(context.Context, *ptrMarshal) { w.handled[2].Add(1) })
 	}
 }
 
@@ -154,9 +198,9 @@ func TestC13Patterns(t *testing.T) {
 			for pos := -1; pos < L; pos++ {
 				ukinds := []int{0}
 				if pos >= 0 {
-					ukinds = []int{2, 3, 4, 5, 6, 7}
+					ukinds = []int{2, 3, 4, 5, 6, 7, 8, 9, 10}
 					if !run.Thorough() && L > 4 {
-						ukinds = []int{2 + (bits+pos)%6}
+						ukinds = []int{2 + (bits+pos)%9}
 					}
 				}
 				for _, uk := range ukinds {
@@ -173,7 +217,7 @@ func TestC13Patterns(t *testing.T) {
 							pattern[i] = uk
 						}
 					}
-					variant := idx % 9 // error handler {option, setter, unset} x handlers {0..2 => 1..3 or 0}
+					variant := idx % 12 // error handler {option, setter, unset, option+re-entrant alert} x handlers {0, 1, 3}
 					runPattern(run, pattern, variant)
 				}
 			}
@@ -184,20 +228,26 @@ func TestC13Patterns(t *testing.T) {
 }
 
 func runPattern(run *vk.Run, pattern []int, variant int) {
-	ehMode := variant % 3
-	nH := variant / 3 * 1
-	if variant/3 == 2 {
+	ehMode := variant % 4 // 3: an error handler that publishes an alert event on the same bus
+	nH := variant / 4
+	if nH == 2 {
 		nH = 3
 	}
 	w := &world{mem: ebu.NewMemoryStore(), faults: stores.NewFaults()}
 	fa := map[int]stores.Action{}
 	ai := 0
 	for _, k := range pattern {
-		if k == 1 {
+		switch k {
+		case 1:
 			fa[ai] = stores.Fail
+		case 10:
+			fa[ai] = stores.LostAck
 		}
-		if k <= 1 {
+		if k <= 1 || k >= 9 {
 			ai++
+		}
+		if ehMode == 3 && k != 0 && k != 9 {
+			ai++ // the alert published by the error handler is appended too
 		}
 	}
 	w.faults.ByKind["append"] = fa
@@ -205,13 +255,22 @@ func runPattern(run *vk.Run, pattern []int, variant int) {
 	if ehMode == 0 {
 		opts = append(opts, ebu.WithPersistenceErrorHandler(w.onErr))
 	}
+	alerts := 0
+	if ehMode == 3 {
+		opts = append(opts, ebu.WithPersistenceErrorHandler(func(ev any, t reflect.Type, err error) {
+			w.onErr(ev, t, err)
+			// a dead-letter / alert event published from inside the error handler
+			ebu.Publish(w.bus, alert{ID: 1000 + len(w.errCalls)})
+		}))
+	}
 	w.bus = ebu.New(opts...)
 	if ehMode == 1 {
 		w.bus.SetPersistenceErrorHandler(w.onErr)
 	}
 	subscribeAll(w, nH)
+	ebu.Subscribe(w.bus, func(alert) { alerts++ })
 	sig := fmt.Sprintf("%v|eh%d|h%d", pattern, ehMode, nH)
-	witness := map[string]any{"pattern": pattern, "error_handler": []string{"option", "setter", "unset"}[ehMode], "handlers": nH}
+	witness := map[string]any{"pattern": pattern, "error_handler": []string{"option", "setter", "unset", "option, publishes an alert"}[ehMode], "handlers": nH}
 	viol := func(rule, desc string) {
 		witness["store_ops"] = w.faults.Snapshot()
 		run.Violation("persist:"+rule, fmt.Sprintf("pattern %v (0 ok, 1 append rejected, >=2 unencodable), error handler %s, %d handlers: %s", pattern, witness["error_handler"], nH, desc), witness)
@@ -226,15 +285,36 @@ func runPattern(run *vk.Run, pattern []int, variant int) {
 		for j := range h0 {
 			h0[j] = w.handled[j].Load()
 		}
-		func() {
+		done := make(chan struct{})
+		go func() {
+			defer close(done)
 			defer func() {
 				if r := recover(); r != nil {
 					viol("publish-panicked", fmt.Sprintf("publish #%d panicked: %v", id, r))
 				}
 			}()
 			publish(w.bus, ev)
+			w.bus.Wait()
 		}()
-		w.bus.Wait()
+		hung := false
+		for waited := 0; ; waited++ {
+			select {
+			case <-done:
+			case <-time.After(20 * time.Second):
+				buf := make([]byte, 1<<20)
+				d := string(buf[:runtime.Stack(buf, true)])
+				if watchdog.BlockedUnderEbu(d) {
+					viol("publish-hung", fmt.Sprintf("publish #%d (kind %d) never returned: goroutines are parked below ebu frames", id, k))
+					hung = true
+				} else if waited < 30 {
+					continue
+				}
+			}
+			break
+		}
+		if hung {
+			return
+		}
 		for j := 0; j < nH; j++ {
 			if d := w.handled[j].Load() - h0[j]; d != 1 {
 				viol("handler-missed-event", fmt.Sprintf("publish #%d (kind %d): handler %d received the event %d times", id, k, j, d))
@@ -242,7 +322,7 @@ func runPattern(run *vk.Run, pattern []int, variant int) {
 		}
 		newErr := w.errCalls[errBefore:]
 		wantErr := 0
-		if k != 0 && ehMode != 2 {
+		if k != 0 && k != 9 && ehMode != 2 {
 			wantErr = 1
 		}
 		if len(newErr) != wantErr {
@@ -263,14 +343,23 @@ func runPattern(run *vk.Run, pattern []int, variant int) {
 		}
 		prevOps = len(ops)
 		wantAttempts := 0
-		if k <= 1 {
+		if k <= 1 || k >= 9 {
 			wantAttempts = 1
+		}
+		if ehMode == 3 && wantErr == 1 {
+			wantAttempts++ // the alert's own append
 		}
 		if attempts != wantAttempts {
 			viol("append-attempts", fmt.Sprintf("publish #%d (kind %d): %d append attempts, want %d (no retry, nothing partly written)", id, k, attempts, wantAttempts))
 		}
-		if k == 0 {
+		switch k {
+		case 0, 10: // 10: the store did write the record although it reported an error
 			wantLog = append(wantLog, id)
+		case 9:
+			wantLog = append(wantLog, -9)
+		}
+		if ehMode == 3 && wantErr == 1 {
+			wantLog = append(wantLog, 1000+len(w.errCalls))
 		}
 		// the underlying store after this publish
 		evs, _, _ := w.mem.Read(context.Background(), ebu.OffsetOldest, 0)
@@ -283,8 +372,12 @@ func runPattern(run *vk.Run, pattern []int, variant int) {
 	var prev ebu.Offset
 	for i, e := range evs {
 		var d struct{ ID int }
-		json.Unmarshal(e.Data, &d)
-		if d.ID != wantLog[i] {
+		if wantLog[i] == -9 {
+			if string(e.Data) != "null" {
+				viol("log-content", fmt.Sprintf("record %d should be the null encoding of a nil pointer event, is %s", i, e.Data))
+				break
+			}
+		} else if json.Unmarshal(e.Data, &d); d.ID != wantLog[i] {
 			viol("log-content", fmt.Sprintf("record %d is publish #%d, want #%d", i, d.ID, wantLog[i]))
 			break
 		}
@@ -300,6 +393,17 @@ func runPattern(run *vk.Run, pattern []int, variant int) {
 		}
 		if pattern[i] != 0 && pattern[i-1] != 0 {
 			consec = true
+		}
+	}
+	if ehMode == 3 {
+		nf := 0
+		for _, k := range pattern {
+			if k != 0 && k != 9 {
+				nf++
+			}
+		}
+		if alerts != nf {
+			viol("reentrant-error-handler", fmt.Sprintf("the error handler published %d alerts, %d reached their handler", nf, alerts))
 		}
 	}
 	run.Case(sig, succAfterFail || consec)
